@@ -175,7 +175,9 @@ def insPair (x : Nat × Nat) : List (Nat × Nat) → List (Nat × Nat)
   | y :: r => if x.1 < y.1 || (x.1 == y.1 && x.2 ≤ y.2) then x :: y :: r else y :: insPair x r
 
 def showStateB (st : NpmBundle.BState) : String :=
-  let entries := st.tree.foldr (fun (p, n) acc => insEntry (entryKey p, showEntryB p n) acc) []
+  -- detached subtrees (ghost slots) are not reachable from the root: Go's export does not see them
+  let live := st.tree.filter fun (p, _) => p.all fun s => s.name < NpmBundle.ghostBase
+  let entries := live.foldr (fun (p, n) acc => insEntry (entryKey p, showEntryB p n) acc) []
   let unused := st.unused.foldr insPair []
   "ok N=" ++ joinOr "," (st.nodes.map showNode) ++
   " E=" ++ joinOr "," (st.edges.map showEdge) ++
